@@ -15,11 +15,11 @@ for d in sorted(glob.glob('/verif/seeded/*/meta.json')):
     extra=[]
     if m.get('patch_applies') is False:
         extra.append('patch no longer applies to the repaired tree')
-    for k in ('obsolete','neutralised_by_fix','note_after_fix_666925a'):
+    for k in ('obsolete','neutralised_by_fix','note_after_fix_a98c62f'):
         if m.get(k):
             extra.append(m[k].replace('|','/').replace('\n',' '))
-    if m.get('checks_run_before_4fc4dce'):
-        extra.append('before fix 4fc4dce: '+m['checks_run_before_4fc4dce'])
+    if m.get('checks_run_before_8c38603'):
+        extra.append('before fix 8c38603: '+m['checks_run_before_8c38603'])
     cell='; '.join(caught) if caught else '-'
     if extra:
         cell += ' - ' + ' '.join(extra)
